@@ -53,6 +53,11 @@ def cases(tier, seed):
     for pre in itertools.product(WRITE, repeat=2):
         out.append(dict(mode="wdfs", prefix=list(pre), depth=b["write_depth"]))
     out.append(dict(mode="narrowpid"))
+    # the same operations on a CROWD (hundreds of particles, very few of them dead): histories beyond the depth bound, chosen not enumerated
+    for n3 in (40, 134, 400):
+        crowd = ["ab"] * n3
+        out.append(dict(mode="crowd", history=crowd + ["kf", "c", "a1", "km", "c", "kl", "c", "a2", "kf", "kl", "c", "sx", "c"]))
+        out.append(dict(mode="wcrowd", history=crowd + ["w", "kf", "w", "a1", "kl", "w", "w"]))
     return out
 
 
@@ -538,9 +543,15 @@ def run_case(case):
         return replay_dfs(case)
     if case["mode"] == "wdfs":
         return wdfs(case)
-    if case["mode"] == "hist":
+    if case["mode"] in ("hist", "crowd"):
         v = run_history(case["history"], case)
+        if case["mode"] == "crowd":
+            v = [dict(x, case=dict(case)) for x in v[:1]]  # the replay is the whole crowd history
+            return util.result(evals=len(case["history"]), nontrivial=1, viol=v, outcomes=[["crowd", len(v)]], states=len(case["history"]), transitions=len(case["history"]))
         return util.result(evals=1, viol=v, outcomes=[len(v)])
+    if case["mode"] == "wcrowd":
+        v = [dict(x, case=dict(case)) for x in (run_write_history(case["history"]) or [])[:1]]
+        return util.result(evals=len(case["history"]), nontrivial=1, viol=v, outcomes=[["wcrowd", len(v)]], states=len(case["history"]), transitions=len(case["history"]))
     if case["mode"] == "diffhist":
         a, b = new_state(), new_state()
         for op in case["history"]:
